@@ -411,8 +411,12 @@ def main(args):
     for f in directed:
         bad = None
         try:
-            a, b = _run_pair(f["case"], f["variant"], f.get("hashseed", 0))
-            bad = gen08.compare(a, b)
+            # an address-order finding shows under most, not all, hash seeds
+            for hsd in f.get("hashseeds") or [f.get("hashseed", 0)]:
+                a, b = _run_pair(f["case"], f["variant"], hsd)
+                bad = gen08.compare(a, b)
+                if bad:
+                    break
         except HarnessError as e:
             print("HARNESS-ERROR: %s" % e)
             return 2
